@@ -2,6 +2,7 @@
 \* instance's iteration order): TLC must report Deterministic violated. See NOTES.md.
 SPECIFICATION MCSpec
 CONSTANTS
+  MaxFailed = 1
   MaxPrev = 3
   MaxDecodes = 2
   Canonical = FALSE
